@@ -68,7 +68,7 @@ def check_normalize(ctx):
     repo = ctx.repo
     fi = ctx.fn(repo.func('filter.filter', 'Filter.normalize'))
     I = Interp(repo, NormHooks())
-    me = Obj(repo.cls('filter.filter', 'Filter'), {'_nu': symarr('fnu', (K,), unit=unit_atom('Hz')), '_r': symarr('fresp', (K,), unit=num(1))})
+    me = Obj(repo.cls('filter.filter', 'Filter'), {'_nu': symarr('fnu', (K,), unit=sym('unit:Ufnu')), '_r': symarr('fresp', (K,), unit=num(1))})          # frequencies in any frequency unit
     I.call(fi, [], selfv=me)
     r = sym('fresp', K)
     ref = r / mk_fn('abs', P(mk_fn('INTEG', B(K, sym('fnu', K) / sym('unit:Hz')), B(K, r))))
@@ -164,7 +164,7 @@ def rebin_concrete(ctx):
         I.exact_le = True
         I.axis_len[N] = n
         me = Obj(repo.cls('filter.filter', 'Filter'), {'name': 'F', '_wavelength': scalar(sym('fcw'), unit_atom('micron')),
-                                                       '_nu': symarr('fnu', (K,), unit=unit_atom('Hz')), '_r': symarr('fresp', (K,), unit=num(1))})
+                                                       '_nu': symarr('fnu', (K,), unit=sym('unit:Ufnu')), '_r': symarr('fresp', (K,), unit=num(1))})
         alg.NO_SHANNON = True          # every bracket is decided below by an ordering of the points it compares: expanding them first only costs
         try:
             try:
@@ -267,7 +267,7 @@ def _check_rebin_symbolic(ctx):
         I = Interp(repo, h)
         I.exact_le = True          # a bin edge may coincide with a filter end point: <= and < are kept apart
         me = Obj(repo.cls('filter.filter', 'Filter'), {'name': 'F', '_wavelength': scalar(sym('fcw'), unit_atom('micron')),
-                                                       '_nu': symarr('fnu', (K,), unit=unit_atom('Hz')), '_r': symarr('fresp', (K,), unit=num(1))})
+                                                       '_nu': symarr('fnu', (K,), unit=sym('unit:Ufnu')), '_r': symarr('fresp', (K,), unit=num(1))})
         out = I.call(fi, [symarr('snu', (N,), unit=unit_atom('Hz'))], selfv=me)
         resp = out.attrs.get('_r') if isinstance(out, Obj) else None
         if not isinstance(resp, Arr):
